@@ -21,3 +21,183 @@ def over_transports(scns, seed):
         sc["transports"] = used
         out.append(sc)
     return out
+
+
+def wire_story(events, upto=None):
+    lines = []
+    for n, e in enumerate(events, 1):
+        if e["ev"] == "reset":
+            lines.append("%2d reset: server receive limit %d" % (n, e["limit"]))
+            continue
+        i = {k: v for k, v in e["in"].items() if v not in (0, "", False) or k in ("magic", "rsv") and e["in"]["op"] == "hs"}
+        lines.append("%2d %s" % (n, json.dumps(i)))
+        if e["reply"]:
+            lines.append("      handshake reply: %s" % json.dumps(e["reply"]))
+        for f in e["frames"]:
+            lines.append("      client read frame: %s" % json.dumps(f))
+        if e["delivered"]:
+            lines.append("      delivered to the router: %s" % json.dumps(e["delivered"]))
+        if e["closed"]:
+            lines.append("      connection ended")
+        if upto and n >= upto:
+            break
+    return "\n".join(lines)
+
+
+def wire_explain(xout):
+    mm = re.search(r'<<"MISMATCH", (".*")>>', xout)
+    if not mm:
+        return {"raw": xout[-1500:]}
+    try:
+        return json.loads(unq(mm.group(1)))
+    except Exception:
+        return {"raw": mm.group(0)[:1500]}
+
+
+INTERCHANGE = [("pubsub", "", 16), ("rpc", "", 18), ("meta", "", 16), ("hist", "hist", 16), ("cancel", "", 16), ("tst", "", 14), ("disc", "disc", 14)]
+
+
+def exec_wire(work, binary, wscn):
+    """executes octet-level scenarios and validates them against TraceWire.tla"""
+    byid = {s["id"]: s for s in wscn}
+    violations = []
+    tf, crashes = run_exec(work, binary, wscn, "wire", test="TestWireExec")
+    for c in crashes:
+        line = next((l for l in c["stderr"].splitlines() if l.startswith("panic:") or l.startswith("fatal error:")), "?")
+        violations.append({"kind": "wire-crash", "scn": c["scn"], "scenario": byid[c["scn"]], "stderr": c["stderr"], "sig": {"op": "crash"},
+                           "summary": "the process hosting the rawsocket peer died in wire scenario %s: %s" % (c["scn"], line)})
+    evs = read_trace(tf)
+    ok, nev, fails = validate_all(work, "TraceWire", "TraceSpec", {}, tf, "valwire", story=wire_story, explain=wire_explain)
+    for f in fails:
+        ev = f.get("event") or {}
+        violations.append({"kind": "wire-rejected", "scn": f["scn"], "scenario": byid[f["scn"]], "step": f["step"], "explain": f["explain"],
+                           "story": f["story"].split("\n"), "sig": {"op": (ev.get("in") or {}).get("op")},
+                           "summary": "wire scenario %s: the recorded octet-level execution is not a behaviour of Wire.tla at step %d (%s)" % (
+                               f["scn"], f["step"], json.dumps({k: v for k, v in (ev.get("in") or {}).items() if v not in (0, "", False)}))})
+    return violations, (ok, sum(1 for e in evs if e["ev"] == "step"), evs)
+
+
+def run_wire(prop, spec, tier, seed, work, replay):
+    import families
+    binary = build_harness(work)
+    violations = []
+    st = {"distinct": 0, "generated": 0, "wall_s": 0.0}
+    consts_core = {"Deviations": tla_set([]), "Classes": tla_set(families.ALL_CLASSES)}
+    wscn, cscn = [], []
+    if replay:
+        rp = json.load(open(replay))
+        (wscn if rp.get("kind", "").startswith("wire") else cscn).append(rp["scenario"])
+    else:
+        # leg 1
+        cfg = "SPECIFICATION MCSpec\nCONSTANT MaxSteps = %d\nINVARIANTS C15_Inbound C15_Outbound C15_Limits C15_Ended\nCHECK_DEADLOCK FALSE\n" % (5 if tier == "quick" else 6)
+        st = model_check(work, "MCWire", cfg, timeout=3000, tag="mcwire")
+        # leg 2a: octet level scenarios
+        n = 400 if tier == "quick" else 5000
+        wscn = gen_scenarios(work, "GenWire", {"Depth": 9, "Big": "FALSE"}, n, 9, seed * 7919, "genwire", "%s.wire%d." % (prop, seed))
+        if tier == "thorough":
+            wscn += gen_scenarios(work, "GenWire", {"Depth": 7, "Big": "TRUE"}, 40, 7, seed * 7919 + 5, "genwirebig", "%s.wirebig%d." % (prop, seed))
+        # leg 2b: the routing scenarios of the core family over every transport and serializer
+        per = 45 if tier == "quick" else 700
+        for gi, (bag, mode, depth) in enumerate(INTERCHANGE):
+            part = gen_scenarios(work, "Gen", {"Deviations": tla_set([]), "Depth": depth, "Mode": '"%s"' % mode, "Scripted": "FALSE"},
+                                 per, depth, seed * 7919 + 31 + gi, "genx%d" % gi, "%s.%s%d." % (prop, bag, seed),
+                                 defs={"KindBag": families.BAG[bag]})
+            for s in part:
+                s["epilogue"] = True
+            cscn += over_transports(part, seed + gi)
+    byid = {s["id"]: s for s in wscn + cscn}
+    cov_w, cov_c = (0, 0, []), (0, 0, [])
+    if wscn:
+        v, cov_w = exec_wire(work, binary, wscn)
+        violations += v
+    if False:
+        tf, crashes = run_exec(work, binary, wscn, "wire", test="TestWireExec")
+        for c in crashes:
+            line = next((l for l in c["stderr"].splitlines() if l.startswith("panic:") or l.startswith("fatal error:")), "?")
+            violations.append({"kind": "wire-crash", "scn": c["scn"], "scenario": byid[c["scn"]], "stderr": c["stderr"], "sig": {"op": "crash"},
+                               "summary": "the process hosting the rawsocket peer died in wire scenario %s: %s" % (c["scn"], line)})
+        evs = read_trace(tf)
+        ok, nev, fails = validate_all(work, "TraceWire", "TraceSpec", {}, tf, "valwire", story=wire_story, explain=wire_explain)
+        for f in fails:
+            ev = f.get("event") or {}
+            violations.append({"kind": "wire-rejected", "scn": f["scn"], "scenario": byid[f["scn"]], "step": f["step"], "explain": f["explain"],
+                               "story": f["story"].split("\n"), "sig": {"op": (ev.get("in") or {}).get("op")},
+                               "summary": "wire scenario %s: the recorded octet-level execution is not a behaviour of Wire.tla at step %d (%s)" % (
+                                   f["scn"], f["step"], json.dumps({k: v for k, v in (ev.get("in") or {}).items() if v not in (0, "", False)}))})
+        cov_w = (ok, sum(1 for e in evs if e["ev"] == "step"), evs)
+    if cscn:
+        tf, crashes = run_exec(work, binary, cscn, "ex")
+        for c in crashes:
+            line = next((l for l in c["stderr"].splitlines() if l.startswith("panic:") or l.startswith("fatal error:")), "?")
+            violations.append({"kind": "crash", "scn": c["scn"], "scenario": byid[c["scn"]], "stderr": c["stderr"], "sig": {"op": "crash"},
+                               "summary": "the worker running the router died in scenario %s (network transports): %s" % (c["scn"], line)})
+        evs = read_trace(tf)
+        ok, nev, fails = validate_all(work, "Trace", "TraceSpec", consts_core, tf, "valx")
+        known = [k for k in known_findings(prop) if k.get("status") == "known" and k.get("deviation")]
+        groupsx, _ = split_by_scn(evs)
+        for f in fails:
+            kn = None
+            for k in known:
+                fk = work.path("knownx.ndjson")
+                with open(fk, "w") as fh:
+                    for e in groupsx[f["scn"]]:
+                        fh.write(json.dumps(e) + "\n")
+                acc, _, _, _ = validate(work, "Trace", "TraceSpec", dict(consts_core, Deviations=tla_set([k["deviation"]])), fk, "knownx")
+                if acc:
+                    kn = k
+                    break
+            violations.append({"kind": "trace-rejected", "known": kn, "scn": f["scn"], "scenario": byid[f["scn"]], "step": f["step"], "explain": f["explain"],
+                               "story": f["story"].split("\n"), "sig": families.violation_sig(f), "transports": byid[f["scn"]].get("transports"),
+                               "summary": "scenario %s over %s: the recorded execution is not a behaviour of the (transport independent) specification at step %d (%s)" % (
+                                   f["scn"], byid[f["scn"]].get("transports"), f["step"], json.dumps(families.violation_sig(f)))})
+        cov_c = (ok, sum(1 for e in evs if e["ev"] == "step"), evs)
+    if replay:
+        return {"violations": violations, "coverage": {}}
+    # binding self-test on the wire traces: a dropped frame must be rejected
+    selftest = "skipped"
+    if cov_w[2] and not [v for v in violations if v["kind"].startswith("wire")]:
+        groups, order = split_by_scn(cov_w[2])
+        sub = json.loads(json.dumps([e for s in order[:40] for e in groups[s]]))
+        for n, e in enumerate(sub):
+            if e["ev"] == "step" and e["frames"]:
+                e["frames"] = e["frames"][1:]
+                f = work.path("selftestwire.ndjson")
+                with open(f, "w") as fh:
+                    for x in sub:
+                        fh.write(json.dumps(x) + "\n")
+                acc, depth, _, _ = validate(work, "TraceWire", "TraceSpec", {}, f, "selftestwire")
+                if acc:
+                    raise Infra("binding self-test failed: a wire trace with a dropped frame was accepted")
+                selftest = "wire trace with one received frame removed at line %d rejected at line %s" % (n + 1, depth)
+                break
+    shapes = set()
+    for e in cov_w[2]:
+        if e["ev"] == "step":
+            i = e["in"]
+            shapes.add((i["op"], i["type"], i["body"], i["sern"], bool(e["reply"]), len(e["frames"]), len(e["delivered"]), e["closed"]))
+    tr_used = {}
+    for s in cscn:
+        for t in s.get("transports") or []:
+            tr_used[t] = tr_used.get(t, 0) + 1
+    samples = []
+    if cov_w[2]:
+        g, o = split_by_scn(cov_w[2])
+        samples.append({"scenario": o[0], "story": wire_story(g[o[0]]).split("\n")})
+    if cov_c[2]:
+        g, o = split_by_scn(cov_c[2])
+        pick = next((s for s in o if byid[s].get("transports")), o[0])
+        samples.append({"scenario": pick, "transports": byid[pick].get("transports"), "story": scenario_story(g[pick]).split("\n")[:40]})
+    cov = {"states": st["distinct"], "transitions": st["generated"], "traces_validated_against_impl": cov_w[0] + cov_c[0],
+           "samples": samples, "evaluations": cov_w[1] + cov_c[1], "distinct_nontrivial": len(shapes) + families.distinct_shapes(cov_c[2]),
+           "rule": "(a) TLC simulation of GenWire.tla generates octet-level rawsocket scenarios (handshake octets, frames of every type around the negotiated "
+                   "limits, truncated frames, PING/PONG, router-side sends around the client's limit) executed against transport.AcceptRawSocket over an "
+                   "in-memory pipe and validated by TLC against TraceWire.tla; (b) routing scenarios generated from Gen.tla are executed with every network "
+                   "session attached over rawsocket or websocket with JSON, MessagePack or CBOR and validated against the same Trace.tla as in-process runs. "
+                   "distinct = distinct (wire step shape, outcome) plus distinct (input kind, received message kinds) of the routing runs",
+           "wire_scenarios": len(wscn), "routing_scenarios_over_transports": len(cscn), "sessions_by_transport": tr_used,
+           "binding_selftest": selftest, "leg1": {"module": "MCWire.tla", "invariants": ["C15_Inbound", "C15_Outbound", "C15_Limits", "C15_Ended"], "wall_s": st["wall_s"]},
+           "checker_cmd": "tlc MCWire.tla (leg 1); tlc -simulate GenWire.tla / Gen.tla (leg 2); tlc TraceWire.tla / Trace.tla (leg 3)", "exhaustive": False}
+    return {"violations": violations, "coverage": cov,
+            "assumptions": ["the in-memory websocket connection of harness/wire.go stands for gorilla's framing (not modelled)",
+                            "the harness end of a rawsocket connection frames and decodes with the repository's own serializers (checked separately by C14)",
+                            "client side rawsocket handshake (ConnectRawSocketPeer needs a real socket) is not exercised", "TLC, testing/synctest"]}
